@@ -281,6 +281,14 @@ class Connection(ExportImport):
             # We're currently joined to a transaction.
             raise ConnectionStateError("Cannot close a connection joined to "
                                        "a transaction")
+        if primary:
+            # Refuse before anything is torn down: a secondary connection
+            # that is joined to the transaction would refuse only after this
+            # connection had already given up its transaction manager.
+            for connection in self.connections.values():
+                if connection is not self and not connection._needs_to_join:
+                    raise ConnectionStateError(
+                        "Cannot close a connection joined to a transaction")
 
         self._cache.incrgc()  # This is a good time to do some GC
 
